@@ -150,8 +150,10 @@ theorem genExecute_moves (Y : YieldFn) (s : Sess) (tk : PTask) (hid : tk.id = t)
     · exact h0
     · split
       · exact h0
-      · rw [← hid]
-        exact Moves.addRe s (invoke s tk) _ (hid ▸ h0)
+      · split
+        · exact h0
+        · rw [← hid]
+          exact Moves.addRe s (invoke s tk) _ (hid ▸ h0)
 
 theorem teardown_moves (s : Sess) (t : Nat) : Moves t s (teardown s t).1 := by
   unfold teardown
@@ -791,9 +793,11 @@ theorem genExecute_obs (Y : YieldFn) (s : Sess) (tk : PTask) :
     · simp [invoke]
     · split
       · simp [invoke]
-      · have h := recreate_frame { invoke s tk with tasks := (invoke s tk).tasks ++ Y tk.id (received tk) } tk.id
-        simp only [h.2.1, h.2.2.1, h.2.2.2.1, h.2.2.2.2.1, h.2.2.2.2.2.1]
-        simp [invoke]
+      · split
+        · simp [invoke]
+        · have h := recreate_frame { invoke s tk with tasks := (invoke s tk).tasks ++ Y tk.id (received tk) } tk.id
+          simp only [h.2.1, h.2.2.1, h.2.2.2.1, h.2.2.2.2.1, h.2.2.2.2.2.1]
+          simp [invoke]
 
 /-- Everything `runPhases` can do to the observable part of the session: either no body ran (world, body log and
 received-lists log are unchanged), or the body ran exactly once, on the task record left by the `provisional`
@@ -1180,18 +1184,56 @@ theorem complete_all_done {ts0 : List PTask} {s : Sess} {h : List Nat} (hi : LIn
       obtain ⟨a, ha, hv⟩ := List.mem_map.1 h1
       rw [← tv_inj' hv]; exact ha
 
+theorem findTask_isSome_any (ts : List PTask) (u : Nat) : (findTask ts u).isSome = ts.any (fun x => x.id == u) := by
+  unfold findTask
+  induction ts with
+  | nil => rfl
+  | cons x xs ih =>
+    simp only [List.find?_cons, List.any_cons]
+    cases h : (x.id == u) <;> simp [ih]
+
+theorem setTask_any_id (ts : List PTask) (tk' : PTask) (u : Nat) :
+    (setTask ts tk').any (fun x => x.id == u) = ts.any (fun x => x.id == u) := by
+  unfold setTask
+  induction ts with
+  | nil => rfl
+  | cons x xs ih =>
+    simp only [List.map_cons, List.any_cons, ih]
+    by_cases h : (x.id == tk'.id) = true
+    · have : x.id = tk'.id := by simpa using h
+      simp [h, this]
+    · simp [h]
+
+theorem nameClash_setupProvisional (s : Sess) (t : Nat) (kids : List PTask) :
+    nameClash (setupProvisional s t).tasks kids = nameClash s.tasks kids := by
+  have key : ∀ u, (findTask (setupProvisional s t).tasks u).isSome = (findTask s.tasks u).isSome := by
+    intro u
+    rw [findTask_isSome_any, findTask_isSome_any]
+    unfold setupProvisional
+    split
+    · rfl
+    · simp only []
+      split <;> split <;> (try rw [(recreate_frame _ t).1]) <;> (try simp only [setTask_any_id])
+  unfold nameClash
+  have : (kids.any fun k => (findTask (setupProvisional s t).tasks k.id).isSome) = (kids.any fun k => (findTask s.tasks k.id).isSome) := by
+    induction kids with
+    | nil => rfl
+    | cons k ks ih => simp only [List.any_cons, key, ih]
+  rw [this]
+
 /-- A generator that is not skipped, does not raise and defines only collectable tasks leaves every task it defined in
 `session.tasks`. -/
 theorem protocol_gen_tasks (Y : YieldFn) (F : BodyFn) (s : Sess) (g : Nat) (G : PTask) (hf : findTask s.tasks g = some G)
     (hgen : G.gen = true) (hnf : G.fails = false) (hfm : g ∉ s.failMarks)
     (hrn : g ∉ (setupProvisional s g).renewed)
-    (hcoll : ∀ x ∈ Y g (received (resolvedDeps s.w.fs G)), x.uncollectable = false) (k : PTask)
+    (hcoll : ∀ x ∈ Y g (received (resolvedDeps s.w.fs G)), x.uncollectable = false)
+    (hclash : nameClash s.tasks (Y g (received (resolvedDeps s.w.fs G))) = false) (k : PTask)
     (hk : k ∈ Y g (received (resolvedDeps s.w.fs G))) : k ∈ (protocol Y F s g).tasks := by
   have hsp := setupProvisional_spec s g G hf
   have hgen1 : (resolvedDeps s.w.fs G).gen = true := by unfold resolvedDeps; split <;> exact hgen
   have hnf1 : (resolvedDeps s.w.fs G).fails = false := by unfold resolvedDeps; split <;> exact hnf
   have hid : (resolvedDeps s.w.fs G).id = g := findTask_id hsp.2
-  generalize resolvedDeps s.w.fs G = G1 at hsp hgen1 hnf1 hid hk hcoll
+  generalize resolvedDeps s.w.fs G = G1 at hsp hgen1 hnf1 hid hk hcoll hclash
   unfold protocol
   rw [(reportChain_frame _ g _).1]
   unfold runPhases
@@ -1218,8 +1260,11 @@ theorem protocol_gen_tasks (Y : YieldFn) (F : BodyFn) (s : Sess) (g : Nat) (G : 
       | true =>
         obtain ⟨x, hx, hxu⟩ := List.any_eq_true.1 ha
         rw [hcoll x hx] at hxu; cases hxu
+    have hcl : nameClash (invoke (setupProvisional s g) G1).tasks (Y G1.id (received G1)) = false := by
+      show nameClash (setupProvisional s g).tasks _ = false
+      rw [nameClash_setupProvisional, hid]; exact hclash
     unfold genExecute
-    simp [hnf1, hne, hany]
+    simp [hnf1, hne, hany, hcl]
   rw [hge]
   simp only []
   have htasks : (recreate { invoke (setupProvisional s g) G1 with tasks := (invoke (setupProvisional s g) G1).tasks ++ Y G1.id (received G1) } G1.id).tasks
@@ -1701,7 +1746,9 @@ theorem genExecute_twp (Y : YieldFn) (s : Sess) (tk : PTask) (t : Nat) : TwpExt 
     · exact TwpExt.of_eq rfl
     · split
       · exact TwpExt.of_eq rfl
-      · exact TwpExt.of_eq (by rw [(recreate_frame _ _).2.2.2.2.2.2.1]; rfl)
+      · split
+        · exact TwpExt.of_eq rfl
+        · exact TwpExt.of_eq (by rw [(recreate_frame _ _).2.2.2.2.2.2.1]; rfl)
 
 theorem teardown_twp (s : Sess) (t : Nat) : TwpExt t s (teardown s t).1 := by
   unfold teardown
@@ -2113,8 +2160,10 @@ theorem genExecute_marks (Y : YieldFn) (s : Sess) (tk : PTask) (hid : tk.id = t)
     · exact h0
     · split
       · exact h0
-      · rw [← hid]
-        exact Marks.re s s _ (Marks.refl s) rfl rfl rfl rfl rfl
+      · split
+        · exact h0
+        · rw [← hid]
+          exact Marks.re s s _ (Marks.refl s) rfl rfl rfl rfl rfl
 
 theorem teardown_marks (s : Sess) (t : Nat) : Marks t s (teardown s t).1 := by
   unfold teardown
